@@ -1,6 +1,7 @@
 CONSTANT N = 3
 CONSTANT LateGuards = TRUE
 CONSTANT Deviation = "none"
+CONSTANT ExitKinds = {"return", "panic"}
 SPECIFICATION Spec
 INVARIANTS TypeOK Safety CountIsHeld ParkedArmed
 PROPERTY Live
